@@ -34,13 +34,6 @@ func verifLineHarness(prop string) {
 	verifAssert(lg.lines == 0, prop+".nothing-logged")
 	verifAssert(verifPanicEvents() == 0, prop+".no-recovered-panic")
 	// a line that is a genuine DATA command consumes the following NOOP as message text
-	hasCtl := false
-	for _, ch := range line {
-		if (ch < 0x20 && ch != '\t') || ch == 0x7f {
-			hasCtl = true
-		}
-	}
-	verifKnown("KF-"+prop+"-echo-control", hasCtl)
 	verifAssert(wf, prop+".replies-wellformed")
 	if !wf {
 		return
@@ -121,10 +114,10 @@ func verif_C19_limit() {
 		return r.code == 500 && len(r.lines) == 1 && r.lines[0] == "5.4.0 Too long line, closing connection"
 	}
 	if ll >= max+2 {
-		// (a valid command sharing a segment with the over-long line may be
-		// dropped together with it; the statement promises nothing for it)
+		// (the commands in front of the over-long line are answered whatever
+		// the segmentation: greeting + pos replies + the closing 500)
 		verifReach("C19.over-limit")
-		verifAssert(len(reps) >= 2 && len(reps) <= pos+2 && isTooLong(reps[len(reps)-1]), "C19.over-long-line-refused")
+		verifAssert(len(reps) == pos+2 && isTooLong(reps[len(reps)-1]), "C19.over-long-line-refused")
 		verifAssert(vc.closed, "C19.over-long-line-closes")
 		verifAssert(be.count("Mail") == 0, "C19.nothing-after-too-long-line")
 		for _, r := range reps[1 : len(reps)-1] {
@@ -204,17 +197,21 @@ func verifLineMixedHarness(prop string) {
 	vc, _, err := verifServe(s, in, io.EOF)
 	verifObserve(prop+".mixed", line, len(vc.out), lg.lines)
 	verifAssert(err == nil && lg.lines == 0 && verifPanicEvents() == 0, prop+".mixed-no-crash")
-	// lenient count: the echo of control octets is the known echo finding
-	verifAssert(verifNthReplyCode(vc.out, 3) == 250, prop+".mixed-one-reply-then-noop")
+	reps, wf := verifParseReplies(vc.out)
+	verifAssert(wf && len(reps) == 4 && reps[3].code == 250, prop+".mixed-one-reply-then-noop")
 }
 
 func verif_C19_line_mixed() { verifLineMixedHarness("C19") }
 
-// verif_C19_limiter_step: ONE lineLimitReader.Read from an ARBITRARY state
-// (limit L and count c arbitrary ints with 0 <= c <= L, L >= 1) over up to 3
-// arbitrary octets, compared with a closed form written from the statement:
-// the count at octet i is i-j+1 if the last LF at or before i is at j, and
-// c+i+1 if there is none; the read is refused iff some count exceeds L.
+// verif_C19_limiter_step: the lineLimitReader from an ARBITRARY state (limit L
+// and count c arbitrary ints with 0 <= c <= L, L >= 1) over up to 3 arbitrary
+// octets followed by EOF, read to its end, compared with a closed form written
+// from the statement: the count at octet i is i-j+1 if the last LF at or before
+// i is at j, and c+i+1 if there is none; the first octet whose count exceeds L
+// makes its line too long. Exactly the complete lines before that line are
+// handed out (pipelined commands in front of an over-long line are still
+// commands), then ErrTooLongLine, and the reader stays refused. Without such an
+// octet everything is handed out unchanged and the count is the closed form's.
 // Inductive step for "the limiter's count is the number of octets since the
 // last LF (the LF included)", for every limit.
 func verif_C19_limiter_step() {
@@ -225,13 +222,20 @@ func verif_C19_limiter_step() {
 	assume(c <= L)
 	src := &verifSrc{data: oct, final: io.EOF}
 	r := &lineLimitReader{R: src, LineLimit: L, curLineLength: c}
-	b := make([]byte, 4)
-	n, err := r.Read(b)
+	var got []byte
+	var err error
+	for i := 0; i < k+3 && err == nil; i++ {
+		b := make([]byte, 4)
+		var n int
+		n, err = r.Read(b)
+		got = append(got, b[:n]...)
+	}
 	// closed form
 	trip := false
 	lastLF := -1
+	keep := k // octets handed out
 	final := c
-	for i := 0; i < k; i++ {
+	for i := 0; i < k && !trip; i++ {
 		if oct[i] == '\n' {
 			lastLF = i
 		}
@@ -241,26 +245,27 @@ func verif_C19_limiter_step() {
 		}
 		if cnt > L {
 			trip = true
+			keep = lastLF + 1
 		}
 		final = cnt
 	}
-	verifObserve("c19ls", k, oct, L, c, n, err == nil, r.curLineLength)
-	if k == 0 {
-		verifReach("C19.lstep-eof")
-		verifAssert(n == 0 && err == io.EOF && r.curLineLength == c, "C19.lstep-eof-passes-through")
-		return
+	verifObserve("c19ls", k, oct, L, c, len(got), err == io.EOF, r.curLineLength)
+	verifAssert(len(got) == keep, "C19.lstep-hands-out-exactly-the-lines-before-the-long-one")
+	if len(got) == keep {
+		for i := 0; i < keep; i++ {
+			verifAssert(got[i] == oct[i], "C19.lstep-octets-unchanged")
+		}
 	}
 	if trip {
 		verifReach("C19.lstep-trip")
-		verifAssert(n == 0 && err == ErrTooLongLine, "C19.lstep-refused-iff-count-exceeds")
+		verifAssert(err == ErrTooLongLine, "C19.lstep-refused-iff-count-exceeds")
 		verifAssert(r.exceeded(), "C19.lstep-stays-refused")
+		n, e2 := r.Read(make([]byte, 4))
+		verifAssert(n == 0 && e2 == ErrTooLongLine, "C19.lstep-stays-refused")
 	} else {
 		verifReach("C19.lstep-pass")
-		verifAssert(n == k && err == nil, "C19.lstep-passes-iff-count-within")
+		verifAssert(err == io.EOF, "C19.lstep-passes-iff-count-within")
 		verifAssert(r.curLineLength == final && r.curLineLength <= L && !r.exceeded(), "C19.lstep-count-is-octets-since-last-lf")
-		for i := 0; i < k; i++ {
-			verifAssert(b[i] == oct[i], "C19.lstep-octets-unchanged")
-		}
 	}
 }
 
